@@ -218,15 +218,19 @@ func pickCluster(route *xdsresource.Route) (string, error) {
 	if len(wcs) == 1 {
 		return wcs[0].Name, nil
 	}
-	currWeight := uint32(0)
-	totalWeight := calTotalWeight(wcs)
+	// sum in 64 bits: the total of uint32 weights may exceed the range of uint32/int32
+	currWeight := uint64(0)
+	totalWeight := uint64(0)
+	for _, wc := range wcs {
+		totalWeight += uint64(wc.Weight)
+	}
 	if totalWeight <= 0 {
 		js, _ := route.MarshalJSON()
 		return "", fmt.Errorf("total weight of route is invalid (<= 0), route: %s", js)
 	}
-	targetWeight := uint32(fastrand.Int31n(int32(totalWeight)))
+	targetWeight := fastrand.Uint64n(totalWeight)
 	for _, wc := range wcs {
-		currWeight += wc.Weight
+		currWeight += uint64(wc.Weight)
 		if currWeight > targetWeight {
 			return wc.Name, nil
 		}
